@@ -122,6 +122,19 @@ CLAIMS['C14'] = dict(
     note='Trusted: CPython ast; reference coded in sa/props/c14.py; UNPREDICTABLE region programming excluded; more than '
          'three regions by the loop-shape rule.')
 
+CLAIMS['C15'] = dict(
+    category='other', design_ref='DESIGN.md section 4 (C15), Appendix A.6/A.9',
+    technique='bit-vector abstract interpretation of the short-descriptor walk, fault encoders, CheckDomain / '
+              'CheckPermission, DataAbort (VMSA arm), FCSE and TranslateAddressV dispatch to exact tables compared with '
+              'reference models by BDD equality; AST rule on the long-descriptor level loop',
+    text='For every MVA, TTBR0/1, TTBCR.N 0..7 / PD0 / PD1, SCTLR.AFE/HA and every first/second-level descriptor value: the '
+         'descriptor addresses, type decision, translation / access-flag faults with level and domain, and the resulting PA, '
+         'domain, AP, XN, PXN, nG, NS, level, block size and attribute bits equal the short-descriptor format; fault status '
+         'encodings, DFSR/DFAR placement, the domain and AP tables, FCSE, the MMU-off flat map and the walk/check dispatch '
+         'are exact. The long-descriptor walk is judged on its loop structure only.',
+    note='Trusted: CPython ast; references coded in sa/props/c15.py from the ARM ARM; stage 2 and big-endian descriptor '
+         'fetch not in play; hub / translation results symbolic.')
+
 PENDING = 'checker not armed yet in this session (under construction); nothing is claimed for it until its rules run clean'
 
 checks = []
